@@ -1,7 +1,7 @@
 """C13 — Stopping a search really stops it, and each channel follows its protocol."""
 from .lib import *
 from . import f5
-from .f9 import purge_info, check_start_stop, check_restart_replaces
+from .f9 import purge_info, check_start_stop, check_restart_replaces, check_every_stop_path_purges
 
 EXPLANATION = (
     "Static rules over MIR of the daemon's start/stop handlers, run loop and cleanup: (a) SearchStarted is sent "
@@ -341,7 +341,13 @@ def clause_g(ctx, P):
         check_restart_replaces(ctx, P, start, variant, rule="C13g")
 
 
+def clause_stop_paths(ctx, P, pre="C13h"):
+    check_every_stop_path_purges(ctx, P, pre, "HostnameResolutionEvent", "SearchStopped", "ResolveHostname", "hostname_resolvers", floor=2)
+    check_every_stop_path_purges(ctx, P, pre + ".browse", "ServiceEvent", "SearchStopped", "Browse", "service_queriers")
+
+
 def run(ctx, P):
+    clause_stop_paths(ctx, P)
     clause_a(ctx, P)
     clause_b(ctx, P)
     clause_c(ctx, P)
